@@ -79,6 +79,7 @@ def block_from_cfg(cfg, pubkey_der, extra=(), pad_to=4096) -> bytes:
         sleeptime=cfg["sleeptime"],
         jitter=cfg["jitter"],
         useragent=cfg["useragent"],
+        host_header=cfg.get("host_header", ""),
         extra=extra,
         pad_to=pad_to,
     )
